@@ -473,3 +473,51 @@ Example real_engine_one_latch_per_route :
   let s := lexec 1 [[LReq false]; [LReq false]; [LReq false]] [0; 1; 2] in
   (route_inbody [s], map lres (lthreads s)) = (1, [[]; [0]; [0]]%Z).
 Proof. vm_compute. reflexivity. Qed.
+
+(* (n) Pool.Put that first looks for its argument on the idle stack with Go's `==` and, on a hit,
+   returns without stacking it ("put back twice"; seeded change C05-10).  `==` on interface values
+   is VALUE equality: two DISTINCT resources - the k-th and the l-th call of create() - whose
+   values are equal (struct values, strings, ints, struct{}{}, one shared pointer) are taken for
+   one.  [val k] = the value of the k-th creation.  The model (Model.v) tracks resources by the
+   creation index only - it has no values at all -, so every theorem of Props.v about the pool
+   (pool_counts, pool_exclusive, let_in_below_limit_pool, ...) holds for ARBITRARY, possibly equal,
+   values; the variant below is what a pool looks like that lets values in. *)
+Definition dedup_put_pstep (val : nat -> nat) (s : pstate) (t : nat) : option pstate :=
+  match nth_error (pthreads s) t with
+  | Some th =>
+    match ppcof th, pcur th, pheld th with
+    | PEnter, Some PPut, x :: rest =>
+      if plocked s then None else
+      if existsb (fun p => Nat.eqb (val (fst p)) (val x)) (pidle s) then
+        (* "already pooled": not stacked, nobody signalled, created unchanged - the slot is gone *)
+        Some (mkPS (plimit s) (pmaxage s) (pcreated s) (pidle s) (pclock s) (pnext s) (psig s) (pdestroyed s)
+                   (upd_nth (pthreads s) t (mkPT PIdle (pscript th) (S (popi th)) rest (pres th ++ [(-1)%Z]))) false)
+      else pstep s t
+    | _, _, _ => pstep s t
+    end
+  | None => pstep s t
+  end.
+
+(* limit 2, all values equal: two resources borrowed together and both returned; of the two Gets
+   that follow - within the cap, nobody holds anything - the second waits for ever: two resources
+   are counted, one is idle-or-held, one is lost *)
+Theorem dedup_put_capacity_lost_refuted :
+  exists n val scripts sched,
+    let s := run (dedup_put_pstep val) (pinit n 0 scripts) sched in
+    map ppcof (pthreads s) = [PWaiting] /\ pheldcount s < n /\ pidle s = [] /\ pcreated s = n.
+Proof.
+  exists 2, (fun _ => 0), [[PGet; PGet; PPut; PPut; PGet; PGet]], (repeat 0 20).
+  vm_compute. repeat split; repeat constructor.
+Qed.
+
+(* distinct values: the variant behaves as the real pool ... *)
+Example dedup_put_harmless_with_distinct_values :
+  let s := run (dedup_put_pstep (fun k => k)) (pinit 2 0 [[PGet; PGet; PPut; PPut; PGet; PGet]]) (repeat 0 20) in
+  (map ppcof (pthreads s), pheldcount s, pcreated s) = ([PIdle], 2, 2).
+Proof. vm_compute. reflexivity. Qed.
+
+(* ... and the real pool serves both Gets whatever the values are (it never looks at them) *)
+Example real_pool_ignores_values :
+  let s := pexec 2 0 [[PGet; PGet; PPut; PPut; PGet; PGet]] (repeat 0 20) in
+  (map ppcof (pthreads s), pheldcount s, pcreated s, length (pidle s)) = ([PIdle], 2, 2, 0).
+Proof. vm_compute. reflexivity. Qed.
